@@ -40,6 +40,18 @@ static void on_asan(const char *msg)
     memcpy(last_report, p, n);
     last_report[n] = 0;
 }
+/* UndefinedBehaviorSanitizer (recover mode): every report is counted like an ASan report and attributed to the event being executed */
+void __ubsan_get_current_report_data(const char **kind, const char **msg, const char **file, unsigned *line, unsigned *col, char **addr);
+void __ubsan_on_report(void)
+{
+    const char *kind = "", *msg = "", *file = "";
+    unsigned line = 0, col = 0;
+    char *addr = NULL;
+    __ubsan_get_current_report_data(&kind, &msg, &file, &line, &col, &addr);
+    asan_reports++;
+    const char *base = strrchr(file, '/');
+    snprintf(last_report, sizeof last_report, "ERROR: UndefinedBehaviorSanitizer: %s: %s (%s:%u)", kind, msg, base ? base + 1 : file, line);
+}
 static void on_death(void)
 {
     printf("CRASH %ld %s %s\n", lineno, tag, last_report);
